@@ -240,6 +240,9 @@ pub trait HasTerminalIn {
 /// Input operations from the terminal.
 pub trait TerminalIn {
     /// Read a line from the terminal and append it to the provided buffer.
+    ///
+    /// The end of the terminal input is signalled either by an error or by appending
+    /// nothing to the buffer (like [std::io::Stdin::read_line] does).
     fn read_line(&mut self, prompt: Option<&str>, buffer: &mut String) -> std::io::Result<()>;
 }
 
